@@ -2,7 +2,8 @@ LEVEL = "other"
 MANIFEST = {
     "engine": "symrun",
     "category": "other",
-    "text": "Decided part of C02: (a) for all 17 classes and dims 1-4 the code's check_dim and declared optional-argument bounds lie inside the literature validity table T8 (an exhaustive finite check against the cited table), (b) the analytic spectral densities the generators sample from (Gaussian, Exponential, Matern, Integral, HyperSpherical, JBessel) are non-negative for ALL wave numbers and ALL parameters inside the bounds (symbolic; sign facts of exp, Gamma, J_nu^2, incomplete gamma), (c) cor(0) = 1, |cor(h)| <= 1 (and covariance(0) = var, variogram(0) = nugget) for the elementary families for all lags and parameters, (d) lat-lon validity reduces to 3-D validity via the chordal construction proved in C13. NOT decided by this technique: Bochner's theorem and the positive definiteness of each family in its domain (rows of T8, assumed literature), non-negativity of numerically (Hankel) transformed spectra and of the TPL superpositions, eigenvalue statements for finite matrices; hence category other. Added after the seeding rounds: the order dispatch inside tools.special.exp_int / inc_gamma (nearest integer order within the isclose window, documented recurrence) on the real functions, and a bounded comparison of exp_int with mpmath.expint on a grid.",
+    "text": "Decided part of C02: (a) for all 17 classes and dims 1-4 the code's check_dim and declared optional-argument bounds lie inside the literature validity table T8 (an exhaustive finite check against the cited table), (b) the analytic spectral densities the generators sample from (Gaussian, Exponential, Matern, Integral, HyperSpherical, JBessel) are non-negative for ALL wave numbers and ALL parameters inside the bounds (symbolic; sign facts of exp, Gamma, J_nu^2, incomplete gamma), (c) cor(0) = 1, |cor(h)| <= 1 (and covariance(0) = var, variogram(0) = nugget) for the elementary families for all lags and parameters, (d) lat-lon validity reduces to 3-D validity via the chordal construction proved in C13. NOT decided by this technique: Bochner's theorem and the positive definiteness of each family in its domain (rows of T8, assumed literature), non-negativity of numerically (Hankel) transformed spectra and of the TPL superpositions, eigenvalue statements for finite matrices; hence category other. Added after the seeding rounds: the order dispatch inside tools.special.exp_int / inc_gamma (nearest integer order within the isclose window, documented recurrence) on the real functions, and a bounded comparison of exp_int with mpmath.expint on a grid."
+            " Round 7: the Cubic model is rejected in four dimensions (F35 repaired; the case had been excluded from the contract before).",
     "level_note": "T8 literature table in contracts/c02.py (cited, assumed); special functions uninterpreted with textbook sign facts (T4); exp_int / inc_gamma_low replaced by their contracts for symbolic arguments; Cubic accepts dim 4 without warning although the literature gives validity in R^3 (observation, recorded in the contract file, not claimed); the analytic core of C02 (positive semi-definiteness itself): not applicable to contract-based verification.",
     "technique": "contract-based deductive verification: symbolic execution of the real Python methods against sidecar postconditions from the docstrings, VCs discharged by z3/cvc5 with instantiated axiom hints",
 }
